@@ -18,7 +18,8 @@ import (
 // and read by the real table parsers); glyph ids, GDEF classes, default-ignorable properties, cluster
 // layout, lookup flags, idx and k are symbolic.
 //
-// glyph alphabet: 1, 2 = bases covered by the tables; 3 = the mark of the mark-to-base table; 4, 5 = not covered.
+// glyph alphabet: 1, 2 = bases covered by the tables; 3 = the mark of the mark-to-base / mark-to-mark tables;
+// 5 = the base mark of the mark-to-mark table; 4 = not covered.
 
 func vfWords(vs ...uint16) []byte {
 	out := make([]byte, 0, 2*len(vs))
@@ -143,6 +144,20 @@ func vfMarkBase() tables.GPOSLookup {
 	return t
 }
 
+// mark 3 (class 0) attaches to the mark 5
+func vfMarkMark() tables.GPOSLookup {
+	w := []uint16{1, 12, 18, 1, 24, 36}
+	w = append(w, vfCov(3)...)        // at 12
+	w = append(w, vfCov(5)...)        // at 18
+	w = append(w, 1, 0, 6, 1, 10, 20) // Mark1Array at 24: one record (class 0, anchor at +6), anchor (10,20)
+	w = append(w, 1, 4, 1, 100, 200)  // Mark2Array at 36: one record, anchor at +4
+	t, _, err := tables.ParseMarkMarkPos(vfWords(w...))
+	if err != nil {
+		panic("harness: MarkMarkPos does not parse")
+	}
+	return t
+}
+
 // glyphs 1 and 2 both have entry and exit anchors
 func vfCursive() tables.GPOSLookup {
 	w := []uint16{1, 14, 2, 22, 28, 22, 28}
@@ -156,7 +171,7 @@ func vfCursive() tables.GPOSLookup {
 	return t
 }
 
-const vfNbStepLookups = 8
+const vfNbStepLookups = 9
 
 // the feature mask of the lookup: any bit outside the glyph flags
 const vfLookupMask GlyphMask = 1 << 8
@@ -199,6 +214,8 @@ func vfStepLookup(which int, flag uint16) font.GPOSLookup {
 		subs = []tables.GPOSLookup{vfMarkBase()}
 	case 8:
 		subs = []tables.GPOSLookup{vfCursive()}
+	case 9:
+		subs = []tables.GPOSLookup{vfMarkMark()}
 	}
 	return font.GPOSLookup{LookupOptions: font.LookupOptions{Flag: flag}, Subtables: subs}
 }
